@@ -169,14 +169,26 @@ func BadF4IgnoresError(a interceptor.Attributes, raw []byte) uint16 {
 	return h.SequenceNumber
 }
 
+// BadF4UsesBeforeTest reads the field before the test and lets the value take effect on the failure path too.
 func BadF4UsesBeforeTest(raw []byte) uint16 {
 	var ext rtp.TransportCCExtension
 	err := ext.Unmarshal(raw)
 	seq := ext.TransportSequence
 	if err != nil {
-		return 0
+		return seq + 1
 	}
 	return seq
+}
+
+// GoodF4Speculative hoists the (memory-safe) field read above the test; the value only takes effect on success.
+func GoodF4Speculative(raw []byte) (uint16, bool) {
+	var ext rtp.TransportCCExtension
+	err := ext.Unmarshal(raw)
+	ok, seq := true, ext.TransportSequence
+	if err != nil {
+		ok, seq = false, 0
+	}
+	return seq, ok
 }
 
 // ---- F1: fixed-width decode -----------------------------------------------------------------------------------------
@@ -268,4 +280,79 @@ func BadF6Build(p []byte, rtx bool) *f6pkt {
 		binary.BigEndian.PutUint16(k.payload, 7)
 	}
 	return k
+}
+
+// ---- F7 -----------------------------------------------------------------------------------------------------------------
+
+type f7ack struct {
+	seq  uint16
+	size int
+}
+
+type f7dec struct {
+	known   map[uint16]int
+	scratch []f7ack
+}
+
+func (d *f7dec) buffer(n int) []f7ack {
+	if cap(d.scratch) < n {
+		d.scratch = make([]f7ack, n)
+	}
+	return d.scratch[:n]
+}
+
+func (d *f7dec) cleanBuffer(n int) []f7ack {
+	if cap(d.scratch) < n {
+		d.scratch = make([]f7ack, n)
+	}
+	out := d.scratch[:n]
+	clear(out)
+	return out
+}
+
+// GoodF7Fresh fills a per-call slice; unknown packets stay zero.
+func (d *f7dec) GoodF7Fresh(start uint16, n int) []f7ack {
+	res := make([]f7ack, n)
+	for i := 0; i < n; i++ {
+		size, ok := d.known[start+uint16(i)]
+		if !ok {
+			continue
+		}
+		res[i] = f7ack{start + uint16(i), size}
+	}
+	return res
+}
+
+// GoodF7Cleared re-uses scratch that the helper clears; GoodF7All assigns every position.
+func (d *f7dec) GoodF7Cleared(start uint16, n int) []f7ack {
+	res := d.cleanBuffer(n)
+	for i := 0; i < n; i++ {
+		size, ok := d.known[start+uint16(i)]
+		if !ok {
+			continue
+		}
+		res[i] = f7ack{start + uint16(i), size}
+	}
+	return res
+}
+
+func (d *f7dec) GoodF7All(start uint16, n int) []f7ack {
+	res := d.buffer(n)
+	for i := 0; i < n; i++ {
+		res[i] = f7ack{start + uint16(i), d.known[start+uint16(i)]}
+	}
+	return res
+}
+
+// BadF7Stale re-uses scratch without clearing: positions of unknown packets keep the previous call's acknowledgement.
+func (d *f7dec) BadF7Stale(start uint16, n int) []f7ack {
+	res := d.buffer(n)
+	for i := 0; i < n; i++ {
+		size, ok := d.known[start+uint16(i)]
+		if !ok {
+			continue
+		}
+		res[i] = f7ack{start + uint16(i), size}
+	}
+	return res
 }
